@@ -3,6 +3,7 @@ package main
 import (
 	"fmt"
 	"go/ast"
+	"go/token"
 	"go/types"
 	"sort"
 
@@ -108,11 +109,28 @@ func rulesC20(c *Ctx) {
 		fi := ComputeFacts(fn)
 		loops := loopsOf(fn)
 		nChild := 0
-		for i := 0; i < nt.st.NumFields(); i++ {
-			fld := nt.st.Field(i)
-			if fld.Embedded() {
-				continue
+		// the node's own fields plus those of embedded plain structs (an embedded helper struct that
+		// holds children is part of the node; an embedded node type forwards through its own Accept)
+		var flds []*types.Var
+		var collect func(st *types.Struct, depth int)
+		collect = func(st *types.Struct, depth int) {
+			for i := 0; i < st.NumFields(); i++ {
+				f := st.Field(i)
+				if f.Embedded() {
+					et := f.Type()
+					if pt, isP := et.(*types.Pointer); isP {
+						et = pt.Elem()
+					}
+					if est, isSt := et.Underlying().(*types.Struct); isSt && depth < 3 && !types.Implements(types.NewPointer(et), nodeIface) && !types.Implements(et, nodeIface) {
+						collect(est, depth+1)
+					}
+					continue
+				}
+				flds = append(flds, f)
 			}
+		}
+		collect(nt.st, 0)
+		for _, fld := range flds {
 			isNode, isSlice := elemNodeType(fld.Type(), nodeIface)
 			if !isNode {
 				continue
@@ -283,12 +301,12 @@ func derivesFromRecvField(v ssa.Value, recv ssa.Value, fld *types.Var, depth int
 	}
 	switch x := v.(type) {
 	case *ssa.UnOp:
-		if f, base := loadedField(x); sameVar(f, fld) && base == recv {
+		if f, base := loadedField(x); sameVar(f, fld) && baseIsRecv(base, recv, 0) {
 			return true
 		}
 		return derivesFromRecvField(x.X, recv, fld, depth+1)
 	case *ssa.FieldAddr:
-		if f, base := fieldOfAddr(x); sameVar(f, fld) && base == recv {
+		if f, base := fieldOfAddr(x); sameVar(f, fld) && baseIsRecv(base, recv, 0) {
 			return true
 		}
 		return false
@@ -668,6 +686,12 @@ func ruleC20Validator(c *Ctx) {
 		// only valid for elements of MAP symbols: it must sit under a successful mapSymbols lookup
 		lk := v.(*ssa.Extract).Tuple.(*ssa.Lookup)
 		if lk.Index != ssa.Value(ips.Params[1]) {
+			// ... and the key must be the FIRST segment of the name: a map element is public with its
+			// map, and nothing reached through another symbol is
+			if !isFirstSegmentOf(lk.Index, ips.Params[1]) {
+				okIPS = false
+				whyIPS = "the publicness of a dotted symbol is taken from a segment that is not provably its first one (" + describeValue(lk.Index) + "): paths through non-public links (places.tags.kind) become public with an inner map"
+			}
 			if !fi2.HoldsWhere(r.Block(), func(f Fact) bool {
 				ex, ok := f.V.(*ssa.Extract)
 				if f.Kind != "true" || !f.Pol || !ok || ex.Index != 1 {
@@ -691,4 +715,64 @@ func noPathAvoiding(fn *ssa.Function, avoid func(ssa.Instruction) bool, allowed 
 	ps := &pathSearch{fn: fn, start: fn.Blocks[0], stop: avoid, skipEdge: allowed}
 	ps.atReturn = func(r *ssa.Return, k knowMap) bool { return true }
 	return !ps.run()
+}
+
+// baseIsRecv: base is the receiver itself or an embedded struct of it.
+func baseIsRecv(base, recv ssa.Value, depth int) bool {
+	if base == recv {
+		return true
+	}
+	if depth > 3 || base == nil {
+		return false
+	}
+	switch x := base.(type) {
+	case *ssa.FieldAddr:
+		if f, b := fieldOfAddr(x); f != nil && f.Embedded() {
+			return baseIsRecv(b, recv, depth+1)
+		}
+	case *ssa.UnOp:
+		if f, b := loadedField(x); f != nil && f.Embedded() {
+			return baseIsRecv(b, recv, depth+1)
+		}
+	}
+	return false
+}
+
+// isFirstSegmentOf: v is the part of name before its first dot (strings.Split/SplitN(name, ".")[0],
+// the first result of strings.Cut(name, "."), or name[:strings.Index(name, ".")]).
+func isFirstSegmentOf(v ssa.Value, name ssa.Value) bool {
+	isDotSplit := func(call *ssa.Call, fns ...string) bool {
+		cal, _ := calleeOf(call.Common())
+		if cal == nil || cal.Pkg() == nil || cal.Pkg().Path() != "strings" || len(call.Call.Args) < 2 || call.Call.Args[0] != name {
+			return false
+		}
+		okName := false
+		for _, f := range fns {
+			if cal.Name() == f {
+				okName = true
+			}
+		}
+		k, isK := call.Call.Args[1].(*ssa.Const)
+		return okName && isK && k.Value != nil && (k.Value.ExactString() == `"."` || k.Value.ExactString() == "46")
+	}
+	switch x := v.(type) {
+	case *ssa.UnOp:
+		if ia, ok := x.X.(*ssa.IndexAddr); ok && x.Op == token.MUL {
+			k, isK := ia.Index.(*ssa.Const)
+			if call, isCall := ia.X.(*ssa.Call); isCall && isK && k.Value != nil && k.Value.ExactString() == "0" {
+				return isDotSplit(call, "Split", "SplitN")
+			}
+		}
+	case *ssa.Extract:
+		if call, ok := x.Tuple.(*ssa.Call); ok && x.Index == 0 {
+			return isDotSplit(call, "Cut")
+		}
+	case *ssa.Slice:
+		if x.X == name && x.Low == nil {
+			if call, ok := x.High.(*ssa.Call); ok {
+				return isDotSplit(call, "Index", "IndexByte", "IndexRune")
+			}
+		}
+	}
+	return false
 }
